@@ -156,21 +156,18 @@ def cellpar(cell):
 
 
 def match_sets(fracA, numA, fracB, numB, cell, tol):
-    """Same multiset of (species, position mod lattice)?"""
+    """Same multiset of (species, position mod lattice)?  (vectorised nearest-neighbour bijection)"""
     if sorted(numA) != sorted(numB):
         return False
-    fracA, fracB = np.asarray(fracA), np.asarray(fracB)
+    fracA, fracB = np.asarray(fracA, float), np.asarray(fracB, float)
     numA, numB = np.asarray(numA), np.asarray(numB)
-    used = np.zeros(len(fracB), bool)
-    for z, p in zip(numA, fracA):
-        d = sym.fdiff(fracB, p[None, :]) @ cell
-        dist = np.sqrt((d**2).sum(1))
-        dist[(numB != z) | used] = np.inf
-        j = int(np.argmin(dist))
-        if dist[j] > tol:
-            return False
-        used[j] = True
-    return True
+    d = sym.fdiff(fracA[:, None, :], fracB[None, :, :]) @ cell
+    D = np.sqrt((d**2).sum(-1))
+    D[numA[:, None] != numB[None, :]] = np.inf
+    j = D.argmin(1)
+    if D[np.arange(len(fracA)), j].max() > tol:
+        return False
+    return len(set(j.tolist())) == len(fracA)
 
 
 def lattice_automorphisms(cell):
@@ -343,8 +340,14 @@ def oracle_c07(rec, tol=TOL):
         # (Hall-database operations are symmetries) and each atom must lie on the tabulated position of its letter
         Rh, Th = sym.ops(rec["sg"])
         std = True
-        for r, t in zip(Rh, Th):
-            if not match_sets((frac @ r.T + t) % 1.0, num, frac, num, cell, 10 * tol):
+        for w in rec["sets"]:
+            # Hall-database orbit of the set's first atom == the set (for every set => the cell is invariant)
+            img = (np.einsum("nij,j->ni", Rh, frac[w["indices"][0]]) + Th) % 1.0
+            d = sym.fdiff(img[:, None, :], frac[None, :, :]) @ cell
+            D = np.sqrt((d**2).sum(-1))
+            D[:, num != w["Z"]] = np.inf
+            j = D.argmin(1)
+            if D[np.arange(len(img)), j].max() > 10 * tol or set(j.tolist()) != set(w["indices"]):
                 std = False
                 break
         if not std:
